@@ -70,7 +70,7 @@ def cases(d):
         stmts.append(["expr", B("<=", F("c"), F("b"))] if d.chance(60) else ["unique", [F("a"), F("c")]])
     # ordering directive
     o = d.randint(0, 99)
-    two_before = has_c and d.chance(65)
+    two_before = has_c and d.chance(40)
     if two_before:
         # a and b are independent (each only bounded), c is coupled to them: both must be chosen before c
         stmts = [st for st in stmts if "b" not in sem.fields_of_stmt(st) or "a" not in sem.fields_of_stmt(st)]
@@ -83,10 +83,13 @@ def cases(d):
         order = [d.choice([["order", ["a", "b"], ["c"]], ["order", ["b", "a"], ["c"]]])]
     elif not has_c:
         order = [["order", ["a"], ["b"]]]
-    elif o < 35:
+    elif o < 20:
         order = [["order", ["a"], ["b", "c"]]]
     elif o < 70:
+        # a chain, written head first or tail first
         order = [["order", ["a"], ["b"]], ["order", ["b"], ["c"]]]
+        if d.chance(40):
+            order.reverse()
     else:
         order = [["order", ["a"], ["b"]], ["order", ["a"], ["c"]]]
     pos = d.randint(0, len(stmts))
